@@ -7,27 +7,43 @@ NOT_APPLICABLE = {}
 CHECKS = {
  'C18': dict(
    design_ref='§6 C18',
-   technique='Coq proofs over dom_to_width/_bitfield_limits translated from the sources (tie T) + hand model of prime.py/temporal.py with vm_compute correspondence (tie H)',
+   technique='Coq proofs over dom_to_width/_bitfield_limits translated from the sources (tie T); prime.py and the identifier helpers of syntax.py translated from the sources on every run and proved equal to the hand model (tie T, GenProofs/PrimeBridge.v); hand model of temporal.py type hints with vm_compute correspondence (tie H)',
    text=('dom_to_width / _bitfield_limits are translated from the sources on '
          'every run; for all lo <= hi (unbounded): every declaration is '
          'accepted, the hint lies within the reported limits, the value map '
          'is a bijection from the declared-width bit fields (with the '
          'constant sign bit for sign-definite hints) onto the limits '
          '(least/greatest), sign-bit shape exact, stored values read back. '
-         'Unbounded theorems on a hand model of prime.py / temporal.py: '
+         'omega/symbolic/prime.py (17 functions: is_variable/is_constant, '
+         'the six support classifiers, vars_in_support, is_state_predicate, '
+         'is_proper_action, is_primed_state_predicate, is_action_of_player, '
+         'support_issubset, prime, unprime, rename_variables, joint_support) '
+         'and syntax.isprimed/prime/unprime/prime_vars/unprime_vars are '
+         'translated to Gallina on every run (tools/py2coq_prime.py, '
+         'fail-closed) and proved EQUAL to the hand-written model '
+         '(C18_prime_model_is_translated_code: 18 equalities of functions by '
+         'conversion, 4 at every argument), so a change of prime.py that '
+         'changes a translated term breaks a proof. Unbounded theorems '
+         '(about the model = the translated code): '
          'prime semantics, unprime(prime u) = u on state predicates, rigid '
          'constants untouched, renaming = value at the renamed assignment, '
-         'support classification exact, type-hint / type-action / '
-         'implies_type_hints exact on representable assignments. The model '
-         'is tied to the real code exhaustively over a window of hints and '
-         'on random automata (truth tables over all bit assignments), both '
-         'back ends.'),
-   note=('Trusted: Coq kernel+vm_compute; py2coq translator (fail-closed; '
-         'declared_hint is hand-written glue); dd by meaning; type-hint '
+         'support classification exact; support_issubset, '
+         'is_primed_state_predicate, is_action_of_player, vars_in_support '
+         '(its internal assertion never fires) and joint_support exact '
+         '(stated about the generated functions); type-hint / type-action / '
+         'implies_type_hints exact on representable assignments (hand '
+         'model). The primitives (fol.support, fol.let, fol.vars) and the '
+         'temporal.py model are tied to the real code exhaustively over a '
+         'window of hints and on random automata (truth tables over all bit '
+         'assignments), both back ends.'),
+   note=('Trusted: Coq kernel+vm_compute; py2coq / py2coq_prime translators '
+         '(fail-closed; declared_hint is hand-written glue; representation '
+         'of L3Context/PyPrims.v: sets and dicts as duplicate-free lists, '
+         'exceptions as None, u.support read at identifier level, '
+         'aut.vars_of_players a parameter); dd by meaning; type-hint '
          'formula text -> BDD via C06 plus correspondence; bit = (variable, '
-         'index) relies on injective naming (guard of fix F15); '
-         'vars_in_support, is_primed_state_predicate, is_action_of_player, '
-         'support_issubset by correspondence only. No axioms.')),
+         'index) relies on injective naming (guard of fix F15). Not '
+         'translated: print_support, pairwise_disjoint, pick. No axioms.')),
  'C07': dict(
    design_ref='§6 C07',
    technique='Coq proofs on a hand model of fol.Context / enumeration (tie H) + vm_compute correspondence and explicit-set oracle on both back ends; dd.pick_iter contract evaluated in Coq on the real cubes',
@@ -165,7 +181,7 @@ CHECKS = {
          'closed under the global context.')),
  'C05': dict(
    design_ref='§6 C05',
-   technique='Coq proofs about make_rabin_transducer translated from gr1.py on every run (tie T; proved equal to a structured model) composed with the translated solve_rabin_game: refinement, Moore independence, memory ranges, closure of the winning region, liveness of every infinite behaviour; two machine-checked refutation witnesses for non-blocking (known findings F3, F12); correspondence + closed-loop search',
+   technique='Coq proofs about make_rabin_transducer translated from gr1.py on every run (tie T; proved equal to a structured model) composed with the translated solve_rabin_game: refinement, Moore independence, memory ranges, closure of the winning region, liveness of every infinite behaviour; two machine-checked refutation witnesses for non-blocking (known findings F3, F12) and the proof that the model blocks ONLY in these two classes; correspondence + closed-loop search',
    text=('make_rabin_transducer is translated from the current gr1.py on '
          'every run and proved equal to a structured Gallina model over the '
          'translated _controllable_action/step/_make_init/solver; proved for '
@@ -185,9 +201,24 @@ CHECKS = {
          'blocking is REFUTED on the faithful model by two kernel-checked '
          'witnesses (C05_refuted_dead_end = F3, C05_refuted_stale_hold = '
          'F12), reproduced on the real code and listed as known findings; '
-         'every other blocking state, refinement/range failure or '
-         'liveness-violating fair cycle found by the closed-loop search on '
-         'the real implementation is reported as a violation.'),
+         'and PROVED to occur only there (C05_blocks_only_in_known_classes, '
+         'all four modes): at every valuation of the winning region, '
+         'reachable or not, with _goal < number of goals and _hold <= number '
+         'of persistence sets, the synthesized action allows a step (Mealy: '
+         'for every next environment value; Moore: one choice for all) '
+         'unless _hold = none, plus_one and the state is an environment dead '
+         'end (cpre(FALSE), class F3), or _hold = i < number of persistence '
+         'sets and the state is outside y_{k,i} of its own level k (class '
+         'F12) - the classes the closed-loop search uses '
+         '(C05_dead_end_in_extended_arena: the dead ends read in the '
+         'extended arena are the same set). Proof: further loop invariants '
+         'of the translated solver (z_k = z_{k-1} or some y_{k,i}; y_{k,i} '
+         'inside cpre(y_{k,i}); every recorded attractor chain ends in '
+         'y_{k,i} and grows only by cpre(previous) or the goal; '
+         'GenProofs/RabinNB1-3.v). Every other blocking state, '
+         'refinement/range failure or liveness-violating fair cycle found '
+         'by the closed-loop search on the real implementation is reported '
+         'as a violation.'),
    note=('Trusted: as C02. Known findings keyed rabin_blocks_env_deadend_plus_one '
          'and rabin_blocks_stale_hold in KNOWN_FINDINGS.txt. Axioms: '
          'C05_liveness depends on Classical_Prop.classic (standard library, '
